@@ -111,7 +111,16 @@ class BaseRunner(metaclass=ABCMeta):
             # another stop has shut down the loop, and this runner with it, already
             return
         try:
-            closed.result()
+            while True:
+                try:
+                    closed.result(timeout=0.1)
+                except concurrent.futures.TimeoutError:
+                    if not self.asyncio_loop.is_closed():
+                        continue
+                    # The loop was closed before it got to our request, which was
+                    # dropped with it. The runner is closed as part of that.
+                    aclose.close()
+                break
         except concurrent.futures.CancelledError:
             # The loop is already shutting down by itself, due to a failure or another
             # stop, and cancelled our request. The runner is closed as part of that.
